@@ -382,12 +382,24 @@ fn main() {
     let e2e_chosen = choose_e2e(ne2e, &mut Rng::new(seed ^ 0xE2E));
     // the first three run side by side with the package builds, the rest afterwards in batches of three
     let e2e_kids = spawn_e2e(&e2e_chosen[..e2e_chosen.len().min(3)]);
-    let mut res = BTreeMap::new();
-    for (pi, chunk) in items.chunks(pkg_size).enumerate() {
-        let refs: Vec<&Item> = chunk.iter().collect();
-        run_batch(&refs, &format!("c01-{seed}-{pi}"), &dump, &mut res);
-        eprintln!("sv_c01: package {pi} ({} programs) done at {:?}", chunk.len(), t0.elapsed());
-    }
+    // packages are independent: build up to VERIF_C01_JOBS (default 3) of them side by side
+    let chunks: Vec<Vec<&Item>> = items.chunks(pkg_size).map(|c| c.iter().collect()).collect();
+    let jobs: usize = std::env::var("VERIF_C01_JOBS").ok().and_then(|s| s.parse().ok()).unwrap_or(3).max(1);
+    let res_m = std::sync::Mutex::new(BTreeMap::new());
+    let next = std::sync::atomic::AtomicUsize::new(0);
+    std::thread::scope(|sc| {
+        for _ in 0..jobs.min(chunks.len().max(1)) {
+            sc.spawn(|| loop {
+                let pi = next.fetch_add(1, std::sync::atomic::Ordering::SeqCst);
+                if pi >= chunks.len() { break; }
+                let mut local = BTreeMap::new();
+                run_batch(&chunks[pi], &format!("c01-{seed}-{pi}"), &dump, &mut local);
+                res_m.lock().unwrap().extend(local);
+                eprintln!("sv_c01: package {pi} ({} programs) done at {:?}", chunks[pi].len(), t0.elapsed());
+            });
+        }
+    });
+    let res = res_m.into_inner().unwrap();
     let mut out = std::io::BufWriter::new(std::fs::File::create(&a.out).unwrap());
     let mut missing = 0;
     for it in &items {
